@@ -603,6 +603,7 @@ pub fn c15_tool(t: &MergeTool, out: &mut Outcome) {
             chroms: content.iter().map(|(n, items)| EncChrom { name: n.clone(), size: MLEN, wig: vec![WigSec::T1(items.clone())], bed: vec![] }).collect(),
             chrom_block: 64,
             chrom_level_order: false,
+            chrom_ids_in_given_order: false,
             fanout: 4,
             placement: Placement::LevelOrder,
             zooms: vec![],
@@ -838,6 +839,7 @@ pub fn c17_tool(t: &AvgTool, out: &mut Outcome) {
         chroms: content.iter().map(|(n, items)| EncChrom { name: n.clone(), size: 200, wig: items.chunks(2).map(|c| WigSec::T1(c.to_vec())).collect(), bed: vec![] }).collect(),
         chrom_block: 64,
         chrom_level_order: false,
+            chrom_ids_in_given_order: false,
         fanout: 2,
         placement: Placement::LevelOrder,
         zooms: vec![],
@@ -1106,6 +1108,7 @@ fn c13_merge_tool(t: &RefuseTool, out: &mut Outcome) {
             chroms: sizes.iter().map(|(n, l)| EncChrom { name: s(n), size: *l, wig: vec![WigSec::T1(vec![(1, 5, 1.0)])], bed: vec![] }).collect(),
             chrom_block: 64,
             chrom_level_order: false,
+            chrom_ids_in_given_order: false,
             fanout: 4,
             placement: Placement::LevelOrder,
             zooms: vec![],
@@ -1307,6 +1310,7 @@ pub fn c06_tool(t: &InfoTool, out: &mut Outcome) {
         }],
         chrom_block: 64,
         chrom_level_order: false,
+            chrom_ids_in_given_order: false,
         fanout: 4,
         placement: Placement::LevelOrder,
         zooms: vec![],
